@@ -9,6 +9,7 @@ from .. import cprgen
 from .C06 import WINDOW_HI
 
 LEVEL = "exploration"
+BRANCH_TARGETS = ['pyModeS.decoder.bds.bds05:airborne_position', 'pyModeS.decoder.adsb:position']
 TECHNIQUE = 'runtime monitoring: reference CPR encoder as oracle (round trip decode(encode(x))) with metamorphic argument-swap relation'
 LEVEL_TEXT = 'Exploration: every NL band x hemisphere x newer parity reached by construction, boundary-directed and uniform positions; tolerance is the quantisation step the standard prescribes; ambiguous cases (within 1e-9 deg of a transition) are excluded and counted.'
 LEVEL_RULE = (
